@@ -32,6 +32,7 @@ for mid in args:
         cmd = re.sub(r"\(cd \$REPO && git apply [^)]*\) && ", "", cmd)   # the script applies / removes the patch itself
         cmd = re.sub(r"cd \S+ && git apply \S+ \(omit for the clean run\); ", "", cmd)
         cmd = cmd.replace("<repo>", wt).replace("<worktree>", wt)
+        cmd = re.sub(r"\[git apply \S+patch\d\.diff\s*&&\]\s*", "", cmd)
         cmd = re.sub(r"git apply \S+patch\d\.diff\s*&&\s*", "", cmd); cmd = re.sub(r";\s*git checkout -- \.\s*$", "", cmd)
         m2 = re.match(r"cp (\S+) (\S+/tests/) ", cmd)
         if m2: cmd = "mkdir -p %s; " % m2.group(2) + cmd
